@@ -777,10 +777,13 @@ class ServiceClass:
 
         # Part 7, 10.1.5.1.4 - Affected SOP Instance UID is required if not in the -RQ
         if status[0] == STATUS_SUCCESS and req.AffectedSOPInstanceUID is None:
-            if isinstance(ds, Dataset) and "AffectedSOPInstanceUID" in ds:
+            try:
+                ds = cast(Dataset, ds)
                 rsp.AffectedSOPInstanceUID = ds.AffectedSOPInstanceUID
                 del ds.AffectedSOPInstanceUID
-            else:
+            except Exception:
+                # Not a dataset, no 'Affected SOP Instance UID' element or
+                #   a value that can't be used as a UID
                 LOGGER.error(
                     "The N-CREATE-RQ has no 'Affected SOP Instance UID' value and the "
                     "'evt.EVT_N_CREATE' handler doesn't include one in the 'Attribute "
